@@ -84,6 +84,17 @@ def gen_float(rng, n, kind, cond):
             a = householder(rng, n, a, True, False); a = householder(rng, n, a, False, True)
     if kind == "spd": a = [[(a[i][j] + a[j][i]) / 2 for j in range(n)] for i in range(n)]
     return a
+def gen_lu_struct(rng, n):
+    """well-conditioned full-rank matrices on which the pivot SEARCH of the LU matters: (permuted) nearly triangular
+    matrices with small-integer entries, mostly negative diagonal, and zero / negligible entries below it"""
+    a = [[0.0] * n for _ in range(n)]
+    for i in range(n):
+        a[i][i] = float(rng.randint(1, 4)) * (-1.0 if rng.random() < 0.7 else 1.0)
+        for j in range(i + 1, n): a[i][j] = float(rng.randint(-2, 2)) if rng.random() < 0.5 else 0.0
+        for j in range(i): a[i][j] = rng.choice([0.0, 0.0, 0.0, 1e-17, -1e-17, 2.0 ** -70])
+    if rng.random() < 0.4:
+        perm = list(range(n)); rng.shuffle(perm); a = [a[k] for k in perm]
+    return a
 def gen_semi_deficient(rng, n):
     # property quantifier: rank deficiencies 0..n-1, i.e. rank >= 1 (the zero matrix is outside; see report)
     if n == 1: return [[Fr(rng.choice([1, 2, 4]))]], 1
@@ -121,7 +132,7 @@ def gen_S_float(rng, tag, side, ao, rhs, bo, n, deficient=False):
     m = 1 if rhs == "v" else rng.choice([1, 2, 3, 5, 17])
     cond = 10.0 ** rng.choice([0, 1, 2, 4, 6, 8])
     if tag in TAGS[:4]: a = gen_float(rng, n, "tri", 1)
-    elif tag == "indef": a = gen_float(rng, n, "gen", cond)
+    elif tag == "indef": a = gen_lu_struct(rng, n) if (n <= 12 and rng.random() < 0.4) else gen_float(rng, n, "gen", cond)
     elif tag == "cg": a = gen_float(rng, n, "spd", min(cond, 1e3))
     elif deficient: a, _ = gen_semi_deficient(rng, n)
     else: a = gen_float(rng, n, "spd", cond)
@@ -188,15 +199,18 @@ def gen_cases(rng, tier):
             a2 = gen_float(rng, n, "spd", 100.0)
             cases.append(("float", "U %s %d %s %s | %s | %s" % (ao, n, tok(alpha), tok(beta), fl(a2), fl([v]))))
             cases.append(("float", "G %s %d | %s" % (ao, n, fl(gen_float(rng, n, "gen", 10.0 ** rng.choice([0, 2, 4, 8]))))))
+            if n <= 12:
+                for _ in range(2): cases.append(("float", "G %s %d | %s" % (ao, n, fl(gen_lu_struct(rng, n)))))
             cases.append(("float", "E %s %d | %s" % (ao, n, fl(symm(gen_float(rng, n, "gen", 100.0))))))
             cases.append(("float", "P %s %d | %s" % (ao, n, fl(gen_float(rng, n, "spd", 10.0 ** rng.choice([0, 2, 4]))))))
             d, r = gen_semi_deficient(rng, n)
             cases.append(("float", "P %s %d | %s" % (ao, n, fl(d))))
             for ztag, za in (("spd", gen_float(rng, n, "spd", 1e4)), ("indef", gen_float(rng, n, "gen", 1e4)),
+                             ("indef", gen_lu_struct(rng, min(n, 12))),
                              ("semi", gen_float(rng, n, "spd", 1e4)), ("semi", d), ("eig", gen_float(rng, n, "spd", 1e3))):
-                m = rng.choice([1, 2, 3])
-                b = [[(rng.uniform(-1, 1) if za is not d else float(rng.randint(-3, 3))) for _ in range(m)] for _ in range(n)]
-                cases.append(("lsq" if za is d else "float", "Z %s %s %d %d | %s | %s" % (ztag, ao, n, m, fl(za), fl(b))))
+                m = rng.choice([1, 2, 3]); nn = len(za)
+                b = [[(rng.uniform(-1, 1) if za is not d else float(rng.randint(-3, 3))) for _ in range(m)] for _ in range(nn)]
+                cases.append(("lsq" if za is d else "float", "Z %s %s %d %d | %s | %s" % (ztag, ao, nn, m, fl(za), fl(b))))
     return cases
 def symm(a): return [[(a[i][j] + a[j][i]) / 2 for j in range(len(a))] for i in range(len(a))]
 
